@@ -164,6 +164,20 @@ CLAIMED = {
     note='Elementary functions evaluated with their NumPy meaning in the harness (tolerances 1e-9 / 1e-5); scalar models, default backend.',
     technique='TLA+ symbolic differentiation spec (TLC-checked on polynomial parts), replay into get_jacobian_func vs trees and differences',
     ref='6/C12'),
+
+ 'C10': dict(
+    text='(a) spec/Solver.tla with the DDEHistory object in the solver loop (update after every step, query at step*dt - tau, initial '
+         'state before the start): TLC checks that P refines the delayed recurrence with constant pre-history and every case (1-3-step '
+         'delays, one or two nodes, euler/heun, sampling 1-3, vectorize on/off) is run and compared exactly; (b) update/query logs of '
+         'the real DDEHistory object recorded through the decorator keyword during these runs are validated by TLC against '
+         'DDEHistory.tla; (c) models with past() leaves from Jacobian.tla are compiled (fixed-step and adaptive, past() and x(t-tau) '
+         'notation, parameter and literal delays) and called with a recording hist: the value must equal the tree evaluated with '
+         'component x of hist(t - tau) and the query times must be exactly t - tau in time units; (d) adaptive run vs the exact '
+         'method-of-steps solution on [0, 3 tau).',
+    note='(d) is tolerance-limited (3.5 %): the history is linearly interpolated between accepted steps; D46 (spelling of past terms) and '
+         'D49 (per-node delays of merged nodes) are pinned; default backend.',
+    technique='TLA+ solver/history spec (TLC), exact replay, TLC trace validation of recorded history logs, recording hist callable',
+    ref='6/C10'),
 }
 
 NOT_YET = 'check not built yet in this round (planned in DESIGN.md section 6); not claimed'
